@@ -24,8 +24,8 @@ PROPS = {
     },
     "C09": {
         "suites": [("scope", 1500, 6000)],
-        "proved_scope": "for every tree, node, prefix, namespace, name: namespaces_in_scope enumerates exactly scopeSpec (nearest declaration wins; each prefix once; xmlns=\"\" absent; xml present) [C09_in_scope]; namespace_for_prefix = scopeSpec with bindings to the no-namespace id hidden [C09_ns_for_prefix, _partial, _false]; is_prefix_defined implied by a binding; prefix_for_namespace sound for real namespaces [C09_prefix_sound]; complete exactly when no prefix is declared twice among the declarations visited until the first binding [C09_prefix_complete_partial, C09_prefix_guard_exact] and false in general [C09_prefix_complete_false, closed witness]; full_name spells name_ref's prefix; the reported prefix resolves back by the rule for the node's kind outside the two defects [C09_fullname_element_partial, _attribute_partial, _false_attribute, _false_element]; node_name_ref = node_name + name_ref; inherited_prefixes is a subset of the parent's scope; FullnameSerializer top frame = nearest-declaration bindings of the pushed frames given unique prefixes per element [C09_stack_invariant]",
-        "not_proved": "C09_unresolved / C09_inherited exactness (which namespaces unresolved_namespaces reports, beyond inherited_prefixes being a subset of the parent's scope): modelled and correspondence-checked only; the link from the FStack invariant to the xml/html serialisers belongs to C10",
+        "proved_scope": "for every tree, node, prefix, namespace, name: namespaces_in_scope enumerates exactly scopeSpec (nearest declaration wins; each prefix once; xmlns=\"\" absent; xml present) [C09_in_scope]; namespace_for_prefix = scopeSpec with bindings to the no-namespace id hidden [C09_ns_for_prefix, _partial, _false]; is_prefix_defined implied by a binding; prefix_for_namespace sound for real namespaces [C09_prefix_sound]; complete exactly when no prefix is declared twice among the declarations visited until the first binding [C09_prefix_complete_partial, C09_prefix_guard_exact] and false in general [C09_prefix_complete_false, closed witness]; full_name spells name_ref's prefix; the reported prefix resolves back by the rule for the node's kind outside the two defects [C09_fullname_element_partial, _attribute_partial, _false_attribute, _false_element]; node_name_ref = node_name + name_ref; inherited_prefixes is a subset of the parent's scope; unresolved_namespaces = a recursive function of the subtree's own declarations started from an empty frame [C09_unresolved_recursive] with closed witnesses of its two defects [C09_unresolved_reports_no_namespace, _xml_namespace]; FullnameSerializer top frame = nearest-declaration bindings of the pushed frames given unique prefixes per element [C09_stack_invariant]",
+        "not_proved": "C09_unresolved / C09_inherited exactness against a path-indexed specification (\"exactly the namespaces of names without a usable prefix inside the subtree\": false as written, see the known findings; the recursive characterisation is proved, the spec-level iff is not); the link from the FStack invariant to the xml/html serialisers belongs to C10",
         "modelled": EXTERNAL,
         "assumptions": ["ids of the built-in prefixes / namespaces as registered by Xot::new (empty prefix 0, xml prefix 1, no namespace 0, XML namespace 1)",
                         "hash-set / hash-map results (prefix_for_namespace's seen set, Prefixes) modelled as lists; inherited_prefixes compared sorted"],
